@@ -425,6 +425,32 @@ profiles.nontrivial = _nontrivial
 profiles.CHECKS["C09"]["profiles"] = [("clean_hpc", 0.5), ("cancel", 0.25), ("resubmit", 0.25)]
 profiles.CHECKS["C02"]["profiles"] = [("clean_hpc", 0.55), ("clean_local", 0.25), ("resubmit", 0.2)]
 profiles.CHECKS["C06"]["profiles"] = [("clean_hpc", 0.5), ("clean_local", 0.2), ("resubmit", 0.3)]
+
+
+def gen_resubmit_limits(ch, prof):
+    """C06 over resubmissions: small node limit, small batches, an impatient user who resubmits
+    (also successful jobs, so that there are more rerun batches than free slots) while the
+    completing batch and its neighbours are still in the queue."""
+    sc = gen_resubmit(ch, prof)
+    g = Gen(ch)
+    mn = g.pick([1, 1, 2, 2, 3])
+    for grp in sc["groups"]:
+        grp["params"]["max_nodes"] = mn
+        if not grp["params"]["time_based_batching"]:
+            grp["params"]["per_node_batch_size"] = g.pick([1, 1, 2, 3])
+    sc["resubmit_eager"] = g.flip(0.85)
+    sc["resubmit_delay"] = g.pick([0.0, 0.0, 0.0, 0.5, 3.0])
+    for step in sc["resubmit"]:
+        if g.flip(0.5):
+            step["flags"] = [f for f in step["flags"] if "successful" not in f] + ["--successful"]
+    return sc
+
+
+profiles.profile("resubmit_limits", mode="hpc", fault_free=True, no_liveness=True, kind="world", gen=gen_resubmit_limits,
+                 extra_monitors=_extra, driver_cls=ResubmitDriver, max_jobs=8, min_jobs=3, p_reports=0.2, p_fail=0.45,
+                 max_steps=60000)
+profiles.PROFILE_PROPS["resubmit_limits"] = ["C06"]
+profiles.CHECKS["C06"]["profiles"] = [("clean_hpc", 0.45), ("clean_local", 0.2), ("resubmit", 0.1), ("resubmit_limits", 0.25)]
 profiles.RULES["C06"] = profiles.RULES["C06"].replace("as C01;", "as C01, plus resubmissions issued while old batches are still queued or running;")
 profiles.RULES["C02"] = profiles.RULES["C02"].replace("HPC and local mode;", "HPC and local mode, plus resubmission epochs (blockers that are rerun must have a new outcome);")
 profiles.RULES["C09"] = profiles.RULES["C09"].replace("as C01;", "as C01, plus cancel and resubmit histories;")
